@@ -75,14 +75,19 @@ type paceState struct {
 	ksMac   []byte
 
 	// ground truth for oracles
-	SharedX []byte
-	Slice   string
+	SharedX       []byte
+	Slice         string
+	TermMapPubRaw []byte
+	TermKaPubRaw  []byte
 }
 
 // PaceLast exposes ground truth of the last PACE run.
 func (c *Chip) PaceLast() (sharedX []byte, ksEnc, ksMac []byte, slice string) {
 	return c.pace.SharedX, c.pace.ksEnc, c.pace.ksMac, c.pace.Slice
 }
+
+// PaceTermPubs returns the terminal's mapping / key-agreement public keys as received.
+func (c *Chip) PaceTermPubs() (mapPub, kaPub []byte) { return c.pace.TermMapPubRaw, c.pace.TermKaPubRaw }
 
 // PacePasswordKey computes K_pi = KDF_pi(f(pi)).
 func PacePasswordKey(pwdRef int, mrzInfo, can string, cp mac.Cipher) []byte {
@@ -216,6 +221,7 @@ func (c *Chip) doGeneralAuthenticate(p *apdu.Command, protected bool, chain bool
 		if err != nil {
 			return fail(0x6A80)
 		}
+		ps.TermMapPubRaw = append([]byte{}, v...)
 		ps.skMap = c.randScalar(cv)
 		if c.Cfg.SteerMappingLeadingZero {
 			ps.skMap = c.steer(cv, ps.skMap, func(k *big.Int) bool {
@@ -255,6 +261,7 @@ func (c *Chip) doGeneralAuthenticate(p *apdu.Command, protected bool, chain bool
 			return fail(0x6A80)
 		}
 		ps.pkDHIFD = pkIFD
+		ps.TermKaPubRaw = append([]byte{}, v...)
 		ps.skDH = c.randScalar(cv)
 		if c.Cfg.SteerAgreementLeadingZero {
 			ps.skDH = c.steer(cv, ps.skDH, func(k *big.Int) bool {
